@@ -48,14 +48,14 @@ REAL_VS_STUB = common.REAL_VS_STUB
 QUICK_RUNS = 5200
 O_SLICE_UNITS = 24
 EXPECTED_PROBES = {
-    t: ["history_runs", "thread_runs", "aborted_ops", "setattr_attempts", "delattr_attempts", "thread_switches", "cfgtp5_poll_ops", "config_ops", "construct_ops", "read_ops", "switch_inside__set_attribute"]
+    t: ["history_runs", "thread_runs", "aborted_ops", "setattr_attempts", "delattr_attempts", "thread_switches", "cfgtp5_poll_ops", "config_ops", "construct_ops", "read_ops", "switch_inside__set_attribute", "sweep_runs"]
     for t in ("quick", "thorough")
 }
 
 _GOLD = {}  # key(op) -> result (JSON-able)
 _CAT = None
 _COLD_VIOLATIONS = []
-CHILD_TIMEOUT_S = 120
+CHILD_TIMEOUT_S = 600  # watchdog for a wedged child only (wall clock, generous: a loaded machine must not trip it)
 
 
 # -------------------------------------------------------------------------------------------
@@ -111,7 +111,18 @@ def _snapshot(msg):
 
 
 def _msg_result(msg):
+    try:
+        first_str = str(msg)
+        first_repr = repr(msg)
+    except Exception:  # pylint: disable=broad-except
+        first_str = first_repr = None
     snap = _snapshot(msg)
+    if first_str is not None:
+        try:
+            if str(msg) != first_str or repr(msg) != first_repr:
+                return ["MUTATED", "str() / repr() of the message changed after it was serialized and printed once"]
+        except Exception as err:  # pylint: disable=broad-except
+            return ["MUTATED", f"str() worked before serialize() and raises {type(err).__name__} after it"]
     try:
         r = repr(msg)
     except Exception as err:  # pylint: disable=broad-except
@@ -328,7 +339,7 @@ def _build_catalogue_body():
     from pyubx2.ubxtypes_configdb import UBX_CONFIG_DATABASE  # pylint: disable=import-outside-toplevel
 
     rng = core.stream(13, "catalogue")
-    ops, fam = [], {"parse": [], "aborted": [], "new": [], "cfg": [], "tp5": [], "mutate": [], "inspect": [], "variant": [], "read": [], "eqv": [], "arrays": [], "dupkey": [], "ref": []}
+    ops, fam = [], {"parse": [], "aborted": [], "new": [], "cfg": [], "tp5": [], "mutate": [], "inspect": [], "variant": [], "read": [], "eqv": [], "arrays": [], "dupkey": [], "ref": [], "vals": []}
     pool_src = []
 
     def add(op, *families):
@@ -355,6 +366,14 @@ def _build_catalogue_body():
                         if e["typ"] is not None or len(e["lens"]) > 4:
                             fams.append("variant")
                         add(op, *fams)
+            # the same message with other VALUES in its fields (flags set, large and negative numbers): what a
+            # parse may learn from the data it sees must not leak into later results
+            for style in ("random", "random", "ff", "7f"):
+                n0 = e["lens"][-1]  # the longest defined form
+                pl = bytearray(device.payload_bytes(rng, n0, style) if style != "7f" else b"\x7f" * n0)
+                if e["typ"] is not None and n0:
+                    pl[0] = e["typ"]
+                add({"o": "parse", "hex": W.ubx_frame(e["cls"], e["mid"], bytes(pl)).hex(), "mm": mode, "val": 1, "pbf": 1}, "parse", "vals")
             # SETPOLL auto-detection
             if mode in (1, 2):
                 fr = W.ubx_frame(e["cls"], e["mid"], bytes(e["lens"][0]))
@@ -521,7 +540,7 @@ def _build_catalogue_body():
         except Exception:  # pylint: disable=broad-except
             return False
 
-    aborted = set(fam["aborted"])
+    aborted = set(fam["aborted"]) | set(fam["vals"])
     good = [i for i in fam["parse"] if i not in aborted and len(ops[i]["hex"]) > 16 and _parses(ops[i])]
     for i in good[:: max(1, len(good) // 48)][:48]:
         pool_src.append(ops[i])
@@ -541,7 +560,17 @@ def _build_catalogue_body():
             add({"o": "del", "pool": j, "msg": src, "name": name}, "mutate")
         for name in ("payload", "_payload", "_checksum", "_length", "length", "identity", "<pub0>", "<publast>"):
             add({"o": "iadd", "pool": j, "msg": src, "name": name}, "mutate")
-    return {"ops": ops, "fam": fam, "pool": pool_src}
+    # probe basket for the predecessor sweep: a fixed, diverse set of operations whose results are compared
+    # with their cold goldens after EVERY operation of the catalogue has run once before them
+    parse_get = [i for i in fam["parse"] if ops[i]["mm"] == 0 and ops[i]["pbf"] == 1 and i not in aborted]
+    parse_set = [i for i in fam["parse"] if ops[i]["mm"] in (1, 2) and ops[i]["pbf"] == 1 and i not in aborted]
+    basket = (
+        parse_get[:: max(1, len(parse_get) // 60)][:60]
+        + parse_set[:: max(1, len(parse_set) // 12)][:12]
+        + fam["tp5"][:1] + fam["cfg"][:3] + fam["read"][:: max(1, len(fam["read"]) // 3)][:3]
+        + fam["new"][:: max(1, len(fam["new"]) // 6)][:6] + fam["inspect"][:2]
+    )
+    return {"ops": ops, "fam": fam, "pool": pool_src, "basket": sorted(set(basket))}
 
 
 def _resolve_names(op, msg):
@@ -686,6 +715,8 @@ def prepare(tier):
 
 
 def _judge_result(op, res, gold, threaded):
+    if res and res[0] == "MUTATED" and "msg" not in op:
+        return ("live_message_changed", f"{key(op)[:160]}: {res[1]}")
     if res and res[0] == "MUTATED":
         return ("attribute_mutation_not_refused", f"{op['o']} {op.get('name')} on {key(op['msg'])[:120]}: {res[1]}")
     if res != gold:
@@ -895,6 +926,16 @@ def _pick_ops(rng, cat, n, flavour):
     return out
 
 
+SWEEP_K = 8  # catalogue operations per sweep scenario (followed by the probe basket)
+
+
+def generate_sweep(j: int) -> dict:
+    """Sweep scenario j: catalogue operations [8j, 8j+8) as predecessors, then the probe basket."""
+    cat = build_catalogue()
+    ops = cat["ops"][j * SWEEP_K : (j + 1) * SWEEP_K]
+    return {"seed": j, "mode": "history", "ops": ops + [cat["ops"][i] for i in cat["basket"]], "pool": cat["pool"], "flavour": "sweep"}
+
+
 def generate(seed: int, tier: str = "quick") -> dict:
     cat = build_catalogue()
     r_cfg = core.stream(seed, "config")
@@ -1025,8 +1066,13 @@ def run_unit(unit) -> UnitResult:
                 scn = {"seed": 0, "mode": "cold", "ops": [op], "clause": "attribute_mutation_not_refused", "detail": g[1]}
                 res.violations.append(scn)
         return res
-    seed = unit["seed"]
-    scn = generate(seed, unit.get("tier", "quick"))
+    if "sweep" in unit:
+        seed = unit["sweep"]
+        scn = generate_sweep(seed)
+        res.counters.hit("sweep_runs")
+    else:
+        seed = unit["seed"]
+        scn = generate(seed, unit.get("tier", "quick"))
     res.runs = 1
     out = run_scenario(scn, seed)
     res.evaluations += 1
@@ -1073,6 +1119,11 @@ def batches(tier, base_seed):
     if tier == "selftest":
         prepare(tier)
     yield [{"cold": True}]
+    if tier != "selftest":
+        # predecessor sweep: every operation of the catalogue once in front of the probe basket
+        n_sweep = -(-len(build_catalogue()["ops"]) // SWEEP_K)
+        for a in range(0, n_sweep, 40):
+            yield [{"sweep": j, "tier": tier} for j in range(a, min(a + 40, n_sweep))]
     for b in common.seed_batches(tier, base_seed, QUICK_RUNS, batch=40):
         yield [dict(u, tier=tier) for u in b]
 
